@@ -28,6 +28,16 @@ theorem tie_v_feature_can_be_used (minArea : α) (b : UBox α) (q minQ : α) (sh
   unfold Gen.K.v_feature_can_be_used featureCanBeUsed
   cases share <;> simp [Gen.K.area, area, Bool.and_comm, Bool.and_assoc] <;> rfl
 
+/-- **the collect rule of `VisualMetric::optimize`** (C13): the feature of the observation that `optimize` is called for
+is dropped exactly when the observation continues a track (`is_merge`; a track's first observation is exempt) and
+does not meet the *collect* thresholds on box area, feature quality and own-area share; otherwise it is kept as it is -/
+theorem tie_v_collect_gate {φ : Type} (minArea qCollect shareCollect : α) (isMerge : Bool) (b : UBox α) (q : α)
+    (share : Option α) (feat : Option φ) :
+    Gen.K.v_collect_gate minArea qCollect shareCollect isMerge b q share feat =
+      if isMerge && !featureCanBeUsed minArea (area b) q qCollect share shareCollect then none else feat := by
+  unfold Gen.K.v_collect_gate
+  rw [tie_v_feature_can_be_used]
+
 /-- `visual_metric`: a vote only from a track with at least the minimal number of collected features, for a
 distance (Euclidean or cosine, by the configured kind) that passes `is_ok`, with weight `distance_to_weight` -/
 theorem tie_v_visual_metric (euclidean cosine : F → F → α) (k : Kind α) (minLen collected : Nat) (a b : F) :
